@@ -1,3 +1,402 @@
+(* Props/C16.v — C16 "Integer recurrences denote the clipped arithmetic progression".
+
+   Model: Model/IntSeq.v (hand model of cylc/flow/cycling/integer.py, tied to
+   the source by the C16 correspondence stream).  Vocabulary (Proofs/IntSeqProofs.v):
+     shape_of f cs ce      the progression a dispatched recurrence form defines
+                           (OneOff a | Up a k n | Down e k n),
+     denote f items cs ce  that progression clipped to [initial, final] minus the
+                           exclusion points and the exclusion sequences,
+     seq_member s          the set a constructed state stands for (progression from
+                           p_start by i_step within [p_start, p_stop], minus exclusions),
+     is_least_gt / is_least_ge / is_greatest_lt / is_min / is_max
+                           "least member > p (or None iff none)" etc.
+
+   Structure of the result.  The property text is FALSE of the code (and so of
+   the faithful model) in twelve input classes; each is refuted below on a
+   concrete witness (…_refuted / c16_witness_…), listed in
+   known_findings.d/C16.json.  What is proved, for all values and all fuel:
+     A. for every constructed sequence whatsoever: membership is the set of
+        the state; get_first_point, get_next_point (p >= start - step),
+        get_next_point_on_sequence, get_start_point agree with that set;
+        get_prev_point / get_nearest_prev_point / get_stop_point agree with it
+        when the stop point is on the grid and p <= stop + step;
+     B. for every recurrence form outside the constructor defect classes
+        (sane_input): the constructor succeeds and the set of the state is
+        exactly [denote]; hence all queries agree with [denote];
+     C. Rn/START/END with n <> 1 is rejected for all values (defect ii). *)
 From Coq Require Import List ZArith Bool Lia.
 From Cylc Require Import Base.Util Model.IntSeq Proofs.IntSeqProofs.
-Theorem c16_placeholder : True. Proof. exact I. Qed.
+Import ListNotations.
+Local Open Scope Z_scope.
+
+(* ------------------------------------------------------------------ *)
+(* A. queries against the set of the state — any state                 *)
+(* ------------------------------------------------------------------ *)
+
+(* is_valid is membership, for every state and point *)
+Theorem c16_valid_iff_state : forall s p, is_valid s p = true <-> seq_member s p.
+Proof. exact is_valid_iff. Qed.
+
+(* every state the constructor returns has a positive step or is a one-off *)
+Theorem c16_constructed_regular : forall f items cs ce s,
+  init f items cs ce = Ok s -> regular s.
+Proof. exact init_regular. Qed.
+
+(* get_first_point(p) = least member >= p, or None iff there is none *)
+Theorem c16_state_first : forall fuel s p r,
+  regular s -> get_first_point fuel s p = Ok r -> is_least_ge (seq_member s) p r.
+Proof. exact first_regular. Qed.
+
+(* get_next_point(p) = least member > p, or None iff none — for p >= start - step *)
+Theorem c16_state_next : forall fuel s k p r,
+  stepped s k -> c_start (s_core s) - k <= p ->
+  get_next_point fuel s p = Ok r -> is_least_gt (seq_member s) p r.
+Proof. exact next_stepped. Qed.
+
+Theorem c16_state_next_oneoff : forall fuel s p r,
+  oneoff s -> (p < c_start (s_core s) -> seq_member s (c_start (s_core s))) ->
+  get_next_point fuel s p = Ok r -> is_least_gt (seq_member s) p r.
+Proof. exact next_oneoff. Qed.
+
+(* get_next_point_on_sequence(p), p on the grid *)
+Theorem c16_state_next_on_sequence : forall fuel s k p r,
+  stepped s k -> (p - c_start (s_core s)) mod k = 0 -> c_start (s_core s) - k <= p ->
+  get_next_point_on_sequence fuel s p = Ok r -> is_least_gt (seq_member s) p r.
+Proof. exact nos_stepped. Qed.
+
+(* get_prev_point(p) = greatest member < p, or None iff none — when the stop
+   point is on the grid and p <= stop + step *)
+Theorem c16_state_prev : forall fuel s k p r,
+  stepped s k -> stop_on_grid s k ->
+  (forall e, c_stop (s_core s) = Some e -> p <= e + k) ->
+  get_prev_point fuel s p = Ok r -> is_greatest_lt (seq_member s) p r.
+Proof. exact prev_stepped. Qed.
+
+(* get_nearest_prev_point(p): the range condition is needed only when p
+   itself is on the sequence (the code then delegates to get_prev_point) *)
+Theorem c16_state_nearest_prev : forall fuel s k p r,
+  stepped s k -> stop_on_grid s k ->
+  (is_on_sequence s p = true -> forall e, c_stop (s_core s) = Some e -> p <= e + k) ->
+  get_nearest_prev_point fuel s p = Ok r -> is_greatest_lt (seq_member s) p r.
+Proof. exact nprev_stepped. Qed.
+
+Theorem c16_state_nearest_prev_oneoff : forall fuel s p r,
+  oneoff s -> get_nearest_prev_point fuel s p = Ok r -> is_greatest_lt (seq_member s) p r.
+Proof. exact nprev_oneoff. Qed.
+
+(* get_start_point = least member (None iff empty), for a non-empty range *)
+Theorem c16_state_start : forall fuel s r,
+  regular s -> (forall e, c_stop (s_core s) = Some e -> c_start (s_core s) <= e) ->
+  get_start_point fuel s = Ok r -> is_min (seq_member s) r.
+Proof. exact start_regular. Qed.
+
+(* get_stop_point = greatest member (None iff empty); None when unbounded *)
+Theorem c16_state_stop : forall fuel s k e r,
+  stepped s k -> stop_on_grid s k -> c_stop (s_core s) = Some e -> c_start (s_core s) <= e ->
+  get_stop_point fuel s = Ok r -> is_max (seq_member s) r.
+Proof. exact stop_stepped. Qed.
+
+Theorem c16_state_stop_oneoff : forall fuel s r,
+  oneoff s -> c_stop (s_core s) = Some (c_start (s_core s)) ->
+  get_stop_point fuel s = Ok r -> is_max (seq_member s) r.
+Proof. exact stop_oneoff. Qed.
+
+Theorem c16_state_stop_unbounded : forall fuel s r,
+  c_stop (s_core s) = None -> get_stop_point fuel s = Ok r -> r = None.
+Proof. exact stop_unbounded. Qed.
+
+(* the fuel hypothesis is discharged by an explicit bound, and the only
+   exception a query can raise is the TypeError of a stepped exclusion sequence *)
+Theorem c16_next_fuel : forall fuel s k p e,
+  stepped s k -> c_stop (s_core s) = Some e -> Z.max 0 (e - p) < Z.of_nat fuel ->
+  get_next_point fuel s p <> Err EFuel.
+Proof. exact next_fuel. Qed.
+
+Theorem c16_prev_fuel : forall fuel s k p,
+  stepped s k -> Z.max 0 (p - c_start (s_core s)) < Z.of_nat fuel ->
+  get_prev_point fuel s p <> Err EFuel.
+Proof. exact prev_fuel. Qed.
+
+Theorem c16_next_never_raises : forall fuel s p e,
+  get_next_point fuel s p = Err e -> e = EFuel.
+Proof. exact next_no_error. Qed.
+
+Theorem c16_prev_raises_only_typeerror : forall fuel s p e,
+  get_prev_point fuel s p = Err e -> e = EFuel \/ e = EType.
+Proof. exact prev_errors. Qed.
+
+Theorem c16_prev_total_without_stepped_exclusions : forall fuel s p,
+  no_stepped_excl s -> get_prev_point fuel s p <> Err EType.
+Proof. exact prev_no_type_error. Qed.
+
+(* ------------------------------------------------------------------ *)
+(* B. the constructor: forms outside the defect classes denote the      *)
+(*    clipped progression minus exclusions                             *)
+(* ------------------------------------------------------------------ *)
+
+(* construction succeeds; the state's set is [denote]; its bounds are the
+   first/last point of the clipped progression *)
+Theorem c16_constructor : forall f items cs ce sh,
+  sane_input f items cs ce sh ->
+  exists s, init f items cs ce = Ok s /\
+            (forall p, seq_member s p <-> denote f items cs ce p) /\
+            (c_start (s_core s), c_stop (s_core s)) = bounds sh cs ce.
+Proof.
+  intros f items cs ce sh (W & H1 & Hsh & Hsane & Hits).
+  destruct (init_sane f items cs ce sh W H1 Hsh Hsane Hits) as (s & Hs & Hm & _ & Hb & _).
+  exists s. auto.
+Qed.
+
+(* is_valid iff member *)
+Theorem c16_valid_iff : forall f items cs ce sh s,
+  sane_input f items cs ce sh -> init f items cs ce = Ok s ->
+  forall p, is_valid s p = true <-> denote f items cs ce p.
+Proof. exact e2e_valid. Qed.
+
+Theorem c16_first : forall f items cs ce sh s,
+  sane_input f items cs ce sh -> init f items cs ce = Ok s ->
+  forall fuel p r, get_first_point fuel s p = Ok r -> is_least_ge (denote f items cs ce) p r.
+Proof. exact e2e_first. Qed.
+
+(* next: for p >= first - k (stepped); for a one-off, whenever its point is a member *)
+Theorem c16_next : forall f items cs ce sh s,
+  sane_input f items cs ce sh -> init f items cs ce = Ok s ->
+  forall fuel p r,
+    (forall k, step_of sh = Some k -> fst (bounds sh cs ce) - k <= p) ->
+    (step_of sh = None -> p < fst (bounds sh cs ce) ->
+     denote f items cs ce (fst (bounds sh cs ce))) ->
+    get_next_point fuel s p = Ok r -> is_least_gt (denote f items cs ce) p r.
+Proof. exact e2e_next. Qed.
+
+(* prev: stepped forms, p <= last + k *)
+Theorem c16_prev : forall f items cs ce sh s,
+  sane_input f items cs ce sh -> init f items cs ce = Ok s ->
+  forall fuel p r k,
+    step_of sh = Some k -> (forall e, snd (bounds sh cs ce) = Some e -> p <= e + k) ->
+    get_prev_point fuel s p = Ok r -> is_greatest_lt (denote f items cs ce) p r.
+Proof. exact e2e_prev. Qed.
+
+Theorem c16_nearest_prev : forall f items cs ce sh s,
+  sane_input f items cs ce sh -> init f items cs ce = Ok s ->
+  forall fuel p r,
+    (forall k e, step_of sh = Some k -> snd (bounds sh cs ce) = Some e -> p <= e + k) ->
+    get_nearest_prev_point fuel s p = Ok r -> is_greatest_lt (denote f items cs ce) p r.
+Proof. exact e2e_nprev. Qed.
+
+Theorem c16_next_on_sequence : forall f items cs ce sh s,
+  sane_input f items cs ce sh -> init f items cs ce = Ok s ->
+  forall fuel p r k,
+    step_of sh = Some k -> (exists i, p = fst (bounds sh cs ce) + i * k) ->
+    fst (bounds sh cs ce) - k <= p ->
+    get_next_point_on_sequence fuel s p = Ok r -> is_least_gt (denote f items cs ce) p r.
+Proof. exact e2e_nos. Qed.
+
+(* start / stop are members and minimal / maximal (None iff everything is excluded) *)
+Theorem c16_start : forall f items cs ce sh s,
+  sane_input f items cs ce sh -> init f items cs ce = Ok s ->
+  forall fuel r,
+    (forall e, snd (bounds sh cs ce) = Some e -> fst (bounds sh cs ce) <= e) ->
+    get_start_point fuel s = Ok r -> is_min (denote f items cs ce) r.
+Proof. exact e2e_start. Qed.
+
+Theorem c16_stop : forall f items cs ce sh s,
+  sane_input f items cs ce sh -> init f items cs ce = Ok s ->
+  forall fuel r e,
+    snd (bounds sh cs ce) = Some e -> fst (bounds sh cs ce) <= e ->
+    get_stop_point fuel s = Ok r -> is_max (denote f items cs ce) r.
+Proof. exact e2e_stop. Qed.
+
+Theorem c16_stop_unbounded : forall f items cs ce sh s,
+  sane_input f items cs ce sh -> init f items cs ce = Ok s ->
+  forall fuel r, snd (bounds sh cs ce) = None -> get_stop_point fuel s = Ok r -> r = None.
+Proof. exact e2e_stop_unbounded. Qed.
+
+(* ------------------------------------------------------------------ *)
+(* C. the full statements, and why they are only partially provable    *)
+(* ------------------------------------------------------------------ *)
+
+(* FULL STATEMENT 1 (property text, first sentence): every well-formed form
+   with interval >= 1 and repetitions >= 1 is accepted and denotes the clipped
+   progression minus exclusions.  Proved part: c16_constructor/c16_valid_iff
+   (hypothesis sane_input excludes the defect classes). *)
+Definition c16_denote_all_forms : Prop :=
+  forall f items cs ce sh,
+    wf_form f -> shape_of f cs ce = Some sh -> shape_wf sh ->
+    exists s, init f items cs ce = Ok s /\
+              forall p, is_valid s p = true <-> denote f items cs ce p.
+
+Lemma P3_8_denotes_2 : denote (F_Pk_E 3 (Abs 8)) None 1 (Some 10) 2.
+Proof.
+  apply denote_no_items. exists (Down 8 3 None). split; [reflexivity|split].
+  - exists 2. repeat split; try lia. discriminate.
+  - split; [lia|]. intros F [= <-]. lia.
+Qed.
+
+(* defect (i): P3/8 with context 1..10 is {1,4,7}, not {2,5,8} *)
+Theorem c16_denote_all_forms_refuted : ~ c16_denote_all_forms.
+Proof.
+  intros H.
+  destruct (H (F_Pk_E 3 (Abs 8)) None 1 (Some 10) (Down 8 3 None)) as (s & Hs & Hv).
+  - split; [discriminate|reflexivity].
+  - reflexivity.
+  - split; [lia|discriminate].
+  - vm_compute in Hs. injection Hs as <-.
+    pose proof (proj2 (Hv 2) P3_8_denotes_2) as E. vm_compute in E. discriminate.
+Qed.
+
+(* ... and its get_stop_point() = 8 is not a point of the sequence *)
+Example c16_witness_stop_off_sequence :
+  exists s, init (F_Pk_E 3 (Abs 8)) None 1 (Some 10) = Ok s /\
+            get_stop_point 5 s = Ok (Some 8) /\ is_valid s 8 = false.
+Proof. eexists. split; [vm_compute; reflexivity|split; vm_compute; reflexivity]. Qed.
+
+(* defect (ii): Rn/START/END with n <> 1 is rejected for all values *)
+Theorem c16_fmt1_always_rejected : forall f cs ce n,
+  f_fmt f = 1 -> f_reps f = Some n -> n <> 1 -> exists e, init_core f cs ce = Err e.
+Proof. exact init_core_fmt1_rejected. Qed.
+
+Example c16_witness_R3_0_10 :
+  init (F_Rn_S_E 3 (Abs 0) (Abs 10)) None 0 (Some 20) = Err EIntervalParse /\
+  shape_of (F_Rn_S_E 3 (Abs 0) (Abs 10)) 0 (Some 20) = Some (Up 0 5 (Some 3)).
+Proof. split; vm_compute; reflexivity. Qed.
+
+(* defect (iii): start clipping — 0/P3 in 1..10 contains 2 and not 3 *)
+Example c16_witness_start_clip :
+  exists s, init (F_S_Pk (Abs 0) 3) None 1 (Some 10) = Ok s /\
+            is_valid s 2 = true /\ is_valid s 3 = false /\
+            denote (F_S_Pk (Abs 0) 3) None 1 (Some 10) 3.
+Proof.
+  eexists. split; [vm_compute; reflexivity|]. split; [vm_compute; reflexivity|].
+  split; [vm_compute; reflexivity|].
+  apply denote_no_items. exists (Up 0 3 None). split; [reflexivity|split].
+  - exists 1. repeat split; try lia. discriminate.
+  - split; [lia|]. intros F [= <-]. lia.
+Qed.
+
+(* defect (iv): stop clipping — R5/0/P3 in 0..10 loses 9 *)
+Example c16_witness_stop_clip :
+  exists s, init (F_Rn_S_Pk (Some 5) (Abs 0) 3) None 0 (Some 10) = Ok s /\
+            is_valid s 9 = false /\ get_stop_point 5 s = Ok (Some 8) /\
+            denote (F_Rn_S_Pk (Some 5) (Abs 0) 3) None 0 (Some 10) 9.
+Proof.
+  eexists. split; [vm_compute; reflexivity|]. split; [vm_compute; reflexivity|].
+  split; [vm_compute; reflexivity|].
+  apply denote_no_items. exists (Up 0 3 (Some 5)). split; [reflexivity|split].
+  - exists 3. repeat split; try lia. intros m [= <-]. lia.
+  - split; [lia|]. intros F [= <-]. lia.
+Qed.
+
+(* defect (v): one-off points are not clipped — R1/0 with initial point 1 *)
+Example c16_witness_oneoff_unclipped :
+  exists s, init (F_R1_S (Some 1) (Abs 0)) None 1 (Some 10) = Ok s /\
+            is_valid s 0 = true /\ ~ denote (F_R1_S (Some 1) (Abs 0)) None 1 (Some 10) 0.
+Proof.
+  eexists. split; [vm_compute; reflexivity|]. split; [vm_compute; reflexivity|].
+  intros [(sh & _ & _ & Hc & _) _]. lia.
+Qed.
+
+(* FULL STATEMENT 2 (property text, second sentence): every query agrees with
+   the set, for every query point, and never raises.  Proved part: section A
+   (range conditions; conditional on the call returning). *)
+Definition c16_queries_all_points : Prop :=
+  forall f items cs ce s fuel p,
+    init f items cs ce = Ok s ->
+    (forall r, get_next_point fuel s p = Ok r -> is_least_gt (seq_member s) p r) /\
+    (forall r, get_prev_point fuel s p = Ok r -> is_greatest_lt (seq_member s) p r) /\
+    (forall r, get_nearest_prev_point fuel s p = Ok r -> is_greatest_lt (seq_member s) p r) /\
+    (forall r, get_start_point fuel s = Ok r -> is_min (seq_member s) r) /\
+    (forall r, get_stop_point fuel s = Ok r -> is_max (seq_member s) r \/ c_stop (s_core s) = None) /\
+    get_prev_point fuel s p <> Err EType /\
+    get_nearest_prev_point fuel s p <> Err ERecursion.
+
+(* defect (viii): P3 in 1..10, get_next_point(-5) = None although 1 > -5 is a member *)
+Theorem c16_queries_all_points_refuted : ~ c16_queries_all_points.
+Proof.
+  intros H.
+  destruct (H (F_Pk 3) None 1 (Some 10) _ 5%nat (-5) eq_refl) as (Hn & _).
+  specialize (Hn None eq_refl). cbn in Hn.
+  assert (Hm : seq_member {| s_core := {| c_start := 1; c_stop := Some 10; c_step := Some 3 |};
+                            s_excl := None |} 1).
+  { apply is_valid_iff. vm_compute. reflexivity. }
+  specialize (Hn 1 Hm). lia.
+Qed.
+
+(* the other query-level defects, each on a state built by the constructor *)
+(* (ix) get_prev_point / get_nearest_prev_point beyond stop + step: P3 in 1..10 at 16 *)
+Example c16_witness_prev_far_above :
+  exists s, init (F_Pk 3) None 1 (Some 10) = Ok s /\ is_valid s 10 = true /\
+            get_prev_point 9 s 16 = Ok None /\ get_nearest_prev_point 9 s 16 = Ok None.
+Proof. eexists. repeat split; vm_compute; reflexivity. Qed.
+
+(* (x) get_prev_point on a one-off: R1/5, get_prev_point(6) = None *)
+Example c16_witness_prev_oneoff :
+  exists s, init (F_R1_S (Some 1) (Abs 5)) None 1 (Some 10) = Ok s /\ is_valid s 5 = true /\
+            get_prev_point 9 s 6 = Ok None.
+Proof. eexists. repeat split; vm_compute; reflexivity. Qed.
+
+(* (xi) get_next_point on a one-off returns the excluded point: R1!1 *)
+Example c16_witness_next_oneoff_excluded :
+  exists s, init F_R1 (Some [XP 1]) 1 (Some 10) = Ok s /\ is_valid s 1 = false /\
+            get_next_point 9 s 0 = Ok (Some 1).
+Proof. eexists. repeat split; vm_compute; reflexivity. Qed.
+
+(* (vi) TypeError through `None in self.exclusions`: P1!P2 in 1..10 *)
+Example c16_witness_prev_typeerror :
+  exists s, init (F_Pk 1) (Some [XS (F_Pk 2)]) 1 (Some 10) = Ok s /\
+            get_prev_point 9 s 2 = Err EType /\ get_nearest_prev_point 9 s 0 = Err EType.
+Proof. eexists. repeat split; vm_compute; reflexivity. Qed.
+
+Example c16_witness_stop_typeerror :
+  exists s, init (F_Pk 1) (Some [XS (F_Pk 2)]) 1 None = Ok s /\ get_stop_point 9 s = Err EType.
+Proof. eexists. repeat split; vm_compute; reflexivity. Qed.
+
+(* (vii) unbounded self-recursion of get_nearest_prev_point at an excluded start *)
+Example c16_witness_nprev_recursion :
+  exists s, init (F_Pk 1) (Some [XS (F_Pk 2)]) 1 (Some 10) = Ok s /\
+            get_nearest_prev_point 9 s 1 = Err ERecursion.
+Proof. eexists. repeat split; vm_compute; reflexivity. Qed.
+
+(* (xii) start/stop of an empty sequence are stale, not None: 5/P1 in 2..2 *)
+Example c16_witness_empty_bounds :
+  exists s, init (F_S_Pk (Abs 5) 1) None 2 (Some 2) = Ok s /\
+            get_start_point 9 s = Ok (Some 5) /\ get_stop_point 9 s = Ok (Some 2) /\
+            is_valid s 5 = false /\ is_valid s 2 = false.
+Proof. eexists. repeat split; vm_compute; reflexivity. Qed.
+
+(* ------------------------------------------------------------------ *)
+(* non-vacuity: the hypotheses of part B hold on realistic inputs       *)
+(* ------------------------------------------------------------------ *)
+(* 1/P2 ! (5, P4) with context 1..10 : {1,3,5,7,9} minus 5 minus {1,5,9} = {3,7} *)
+Example c16_sane_example :
+  sane_input (F_S_Pk (Abs 1) 2) (Some [XP 5; XS (F_Pk 4)]) 1 (Some 10) (Up 1 2 None).
+Proof.
+  split; [split; [reflexivity|discriminate]|]. split; [discriminate|].
+  split; [reflexivity|]. split; [cbn; repeat split; try lia; discriminate|].
+  intros its it [= <-] [<-|[<-|[]]]; [exact I|].
+  split; [split; [reflexivity|discriminate]|]. split; [discriminate|].
+  exists (Up 1 4 None). split; [reflexivity|]. cbn. split; [lia|split; [lia|intros m [=]]].
+Qed.
+
+Example c16_sane_example_run :
+  exists s, init (F_S_Pk (Abs 1) 2) (Some [XP 5; XS (F_Pk 4)]) 1 (Some 10) = Ok s /\
+            map (is_valid s) [1; 3; 5; 7; 9] = [false; true; false; true; false] /\
+            get_start_point 9 s = Ok (Some 3) /\ get_stop_point 9 s = Ok (Some 7) /\
+            get_next_point 9 s 3 = Ok (Some 7) /\ get_prev_point 9 s 7 = Ok (Some 3).
+Proof. eexists. repeat split; vm_compute; reflexivity. Qed.
+
+(* R5/P2/10 ! 6 with context 1..10 : {2,4,8,10}, every query as documented *)
+Example c16_sane_example2 :
+  sane_input (F_Rn_Pk_E (Some 5) 2 (Abs 10)) (Some [XP 6]) 1 (Some 10) (Down 10 2 (Some 5)).
+Proof.
+  split; [split; [discriminate|reflexivity]|]. split; [discriminate|].
+  split; [reflexivity|]. split; [cbn; repeat split; try lia; intros F [= <-]; lia|].
+  intros its it [= <-] [<-|[]]. exact I.
+Qed.
+
+Example c16_sane_example2_run :
+  exists s, init (F_Rn_Pk_E (Some 5) 2 (Abs 10)) (Some [XP 6]) 1 (Some 10) = Ok s /\
+            map (is_valid s) [2; 4; 6; 8; 10; 12] = [true; true; false; true; true; false] /\
+            get_next_point 9 s 4 = Ok (Some 8) /\ get_prev_point 9 s 8 = Ok (Some 4) /\
+            get_first_point 9 s 5 = Ok (Some 8) /\ get_nearest_prev_point 9 s 7 = Ok (Some 4) /\
+            get_start_point 9 s = Ok (Some 2) /\ get_stop_point 9 s = Ok (Some 10).
+Proof. eexists. repeat split; vm_compute; reflexivity. Qed.
